@@ -26,6 +26,7 @@ THE SOFTWARE.
 from immutabledict import immutabledict
 
 from pymbolic.mapper import IdentityMapper
+from pymbolic.mapper.substitutor import SubstitutionMapper, make_subst_func
 from pytools import UniqueNameGenerator
 
 from dagrt.codegen.dag_ast import (
@@ -93,6 +94,24 @@ def apply_statement_rewriter(rewriter_cls, phase_ast):
 
 # {{{ eliminate self dependencies
 
+class _VariableSubstitutionMapper(SubstitutionMapper):
+    """Substitutes variables, but leaves the function symbols of calls alone
+    (a function may be registered under the name of a variable)."""
+
+    def map_call(self, expr):
+        return type(expr)(
+                expr.function,
+                tuple(self.rec(par) for par in expr.parameters))
+
+    def map_call_with_kwargs(self, expr):
+        return type(expr)(
+                expr.function,
+                tuple(self.rec(par) for par in expr.parameters),
+                immutabledict({
+                    name: self.rec(par)
+                    for name, par in expr.kw_parameters.items()}))
+
+
 class SelfDependencyEliminator(ASTStatementRewriter):
     def map_statement(self, stmt):
         read_and_written = (
@@ -126,11 +145,10 @@ class SelfDependencyEliminator(ASTStatementRewriter):
                     depends_on=stmt.depends_on)
             new_statements.append(new_tmp_stmt)
 
-        from pymbolic import substitute
+        subst_mapper = _VariableSubstitutionMapper(
+                make_subst_func(dict(substs)))
         new_stmt = (stmt
-                .map_expressions(
-                    lambda expr: substitute(expr, dict(substs)),
-                    include_lhs=False)
+                .map_expressions(subst_mapper, include_lhs=False)
                 .copy(
                     # lhs will be rewritten, but we don't want that.
                     depends_on=stmt.depends_on | frozenset(tmp_stmt_ids)))
